@@ -258,6 +258,13 @@ def norm(v):
             name = name.replace("std::", "")
         if name in ("Sub", "Add") and len(args) == 2 and args[1] == "0":
             return args[0]
+        # comparing a boolean with a constant: `b != false` = `b == true` = b ; `b != true` = `b == false` = !b
+        if name in ("Eq", "Ne") and len(args) == 2 and any(a in ("True", "False") for a in args):
+            const = [a for a in args if a in ("True", "False")][0]
+            other = [a for a in args if a is not const][0] if args[0] is not args[1] else args[1]
+            if other not in ("True", "False"):
+                same = (const == "True") == (name == "Eq")
+                return other if same else ("Not", other)
         return (name,) + tuple(args)
     if k == "call":
         name = short_callee(v[1])
